@@ -76,7 +76,7 @@ pub fn signature_matches(sig: &str, sc: &Scenario, out: &RunOutput, v: &Violatio
         // in another length (the reader gets a range twice, or misses one).
         "delivered-probe-resegmented-eof" => {
             v.offset.zip(v.aux).is_some_and(|(read, expected)| read != expected)
-                && v.wnode.is_some_and(|w| resegmented_after_delivery(out).iter().any(|(t, src, _)| *t <= v.t && *src == sc.addr(w)))
+                && v.wnode.is_some_and(|w| resegmented_after_delivery(out).iter().any(|(t, src, _)| *t <= v.t && *src == sc.addr(w)) || taken_back_probes(out, v.t).iter().any(|(src, _)| *src == sc.addr(w)))
         }
         // F1 seen on the wire by the sender-side oracle: the very sequence number that is
         // re-emitted after its acknowledgement (v.offset) is one that was delivered in one length
@@ -115,42 +115,8 @@ pub fn signature_matches(sig: &str, sc: &Scenario, out: &RunOutput, v: &Violatio
             if recut {
                 return true;
             }
-            // or the run ends before the bytes are cut again: at the violation instant an ACK
-            // for a delivered data packet S reaches its sender whose end-of-poll snapshot shows
-            // last_sent_seq_nr < S (the probe was taken back: S counts as never sent)
-            // (the snapshot at the violation instant, or the last one before the ACK arrived)
-            let acks_at_t: Vec<&crate::hist::Deliver> = evs[start_t..end].iter().filter_map(|(_, ev)| if let Ev::Deliver(d) = ev { (!d.corrupted && d.pkt.is_some()).then_some(d) } else { None }).collect();
-            let names_delivered_above = |d: &crate::hist::Deliver, last_sent: u16| {
-                let Some(set) = delivered_by_src.get(&d.dst) else { return false };
-                acked_seqs(d.pkt.as_ref().unwrap()).iter().any(|q| set.contains(q) && crate::util::seq_lt(last_sent, *q))
-            };
-            let mut last_snap: HashMap<std::net::SocketAddr, u16> = Default::default();
-            for (_, ev) in &evs[..start_t] {
-                if let Ev::Probe(librqbit_utp::verif::ProbeEvent::ConnPoll(sn)) = ev {
-                    last_snap.insert(sn.key.local, sn.last_sent_seq_nr);
-                }
-            }
-            let mut taken_back = false;
-            for (_, ev) in &evs[start_t..end] {
-                match ev {
-                    Ev::Probe(librqbit_utp::verif::ProbeEvent::ConnPoll(sn)) => {
-                        if acks_at_t.iter().any(|d| d.dst == sn.key.local && names_delivered_above(d, sn.last_sent_seq_nr)) {
-                            taken_back = true;
-                            break;
-                        }
-                        last_snap.insert(sn.key.local, sn.last_sent_seq_nr);
-                    }
-                    Ev::Deliver(d) if !d.corrupted && d.pkt.is_some() => {
-                        if let Some(ls) = last_snap.get(&d.dst) {
-                            if names_delivered_above(d, *ls) {
-                                taken_back = true;
-                                break;
-                            }
-                        }
-                    }
-                    _ => {}
-                }
-            }
+            let _ = (start_t, end, &delivered_by_src);
+            let taken_back = !taken_back_probes(out, v.t).is_empty();
             taken_back
         }
         // F7 (same root cause as F1): a popped MTU probe is re-cut into MORE segments after the
@@ -307,7 +273,12 @@ pub fn resegmented_after_delivery(out: &RunOutput) -> Vec<(u64, std::net::Socket
 }
 
 fn delivered_probe_resegmented(sc: &Scenario, out: &RunOutput, v: &Violation, exact: bool) -> bool {
-    let reseg = resegmented_after_delivery(out);
+    let mut reseg = resegmented_after_delivery(out);
+    // (the variant in which the acknowledgement arrives before the re-cut bytes are sent: the
+    // sender takes it for the shorter, never-sent version and goes on from the wrong offset)
+    for (_, p) in taken_back_probes(out, v.t) {
+        reseg.push((0, "0.0.0.0:0".parse().unwrap(), p));
+    }
     if reseg.is_empty() {
         return false;
     }
@@ -325,6 +296,60 @@ fn delivered_probe_resegmented(sc: &Scenario, out: &RunOutput, v: &Violation, ex
             m >= len + slack && crate::util::prf_mismatch(key, m - len - slack, &p.payload).is_none()
         })
     })
+}
+
+/// Delivered data packets S (sender, packet) for which, at some instant up to `until`, an ACK
+/// naming S reached the sender while its end-of-poll snapshot (the last one before the ACK, or
+/// the one of the poll that handles it) showed last_sent_seq_nr < S and a largest segment size
+/// below the length S was delivered with: S was an MTU probe that the sender had taken back
+/// as failed (it counts as never sent, its bytes will be cut again in another length) although
+/// the peer had received it.
+pub fn taken_back_probes(out: &RunOutput, until: u64) -> Vec<(std::net::SocketAddr, std::sync::Arc<crate::codec::Pkt>)> {
+    use crate::hist::Ev;
+    use std::collections::HashMap;
+    let evs = &out.hist.evs;
+    let end = evs.partition_point(|(t, _)| *t <= until);
+    let mut seen_by_src: HashMap<std::net::SocketAddr, HashMap<u16, std::sync::Arc<crate::codec::Pkt>>> = Default::default();
+    let mut last_snap: HashMap<std::net::SocketAddr, (u16, u16)> = Default::default();
+    let mut acks_this_instant: Vec<&crate::hist::Deliver> = vec![];
+    let mut cur_t = u64::MAX;
+    let mut res: Vec<(std::net::SocketAddr, std::sync::Arc<crate::codec::Pkt>)> = vec![];
+    let named = |set: Option<&HashMap<u16, std::sync::Arc<crate::codec::Pkt>>>, d: &crate::hist::Deliver, snap: (u16, u16)| -> Vec<std::sync::Arc<crate::codec::Pkt>> {
+        let Some(set) = set else { return vec![] };
+        let (last_sent, max_ss) = snap;
+        acked_seqs(d.pkt.as_ref().unwrap()).iter().filter_map(|q| set.get(q).filter(|p| (max_ss as usize) < p.payload.len() && crate::util::seq_lt(last_sent, *q)).cloned()).collect()
+    };
+    for (t, ev) in &evs[..end] {
+        if *t != cur_t {
+            cur_t = *t;
+            acks_this_instant.clear();
+        }
+        match ev {
+            Ev::Probe(librqbit_utp::verif::ProbeEvent::ConnPoll(sn)) => {
+                let snap = (sn.last_sent_seq_nr, sn.max_ss);
+                for d in acks_this_instant.iter().filter(|d| d.dst == sn.key.local) {
+                    for p in named(seen_by_src.get(&d.dst), d, snap) {
+                        res.push((d.dst, p));
+                    }
+                }
+                last_snap.insert(sn.key.local, snap);
+            }
+            Ev::Deliver(d) if !d.corrupted && d.pkt.is_some() => {
+                let p = d.pkt.as_ref().unwrap();
+                if p.typ == crate::codec::ST_DATA {
+                    seen_by_src.entry(d.src).or_default().entry(p.seq).or_insert_with(|| p.clone());
+                }
+                if let Some(ls) = last_snap.get(&d.dst) {
+                    for p in named(seen_by_src.get(&d.dst), d, *ls) {
+                        res.push((d.dst, p));
+                    }
+                }
+                acks_this_instant.push(d);
+            }
+            _ => {}
+        }
+    }
+    res
 }
 
 /// The acknowledgement number of a packet and the sequence numbers its selective ACK names.
